@@ -38,7 +38,7 @@ class Unit:
     def __init__(self, name, props, harness, entry, cfg="W128", verify=False, enforce=(), replace=(),
                  assumed=(), loops=False, unwind=None, unwindset=(), flags=(), timeout=600, tier="quick",
                  bounded=None, functions=(), defs=(), branch=False, noconv=True, closed_by=None,
-                 min_obl=1, note="", solver=None, mem_gb=16, nondet_static=False, slice_formula=False,
+                 min_obl=1, note="", solver=None, mem_gb=12, nondet_static=False, slice_formula=False,
                  replay=None, extra_instrument=()):
         self.name = name; self.props = list(props); self.harness = harness; self.entry = entry
         self.cfg = cfg; self.verify = verify; self.enforce = list(enforce); self.replace = list(replace)
@@ -61,7 +61,7 @@ def _limits(mem_gb):
     return f
 
 
-def sh(cmd, timeout, cwd, mem_gb=16, out=None):
+def sh(cmd, timeout, cwd, mem_gb=12, out=None):
     t0 = time.time()
     try:
         p = subprocess.Popen(cmd, cwd=cwd, stdout=subprocess.PIPE if out is None else open(out, "wb"),
